@@ -735,6 +735,9 @@ def fake_proc_backend_class():
             for tid, proc in list(self.procs.items()):
                 if proc.killed or proc.returncode is not None:
                     continue
+                slow = (self.plan.get("slow") or {}).get(str(tid))
+                if slow is not None and self.prng.random() > slow:
+                    continue  # a job on a slow machine: most polls see no progress
                 n = self.prng.choice([0, 1, 1, 1, 2, burst]) if burst > 1 else self.prng.choice([0, 1, 1])
                 proc.advance(n)
 
